@@ -19,42 +19,44 @@ Qed.
 
 Section Sorting.
 Context {A : Type}.
-Variable key : A -> string.
-Definition kle (a b : A) : Prop := String.leb (key a) (key b) = true.
+Variable leb : A -> A -> bool.
+Hypothesis leb_total : forall a b, leb a b = true \/ leb b a = true.
+Hypothesis leb_trans : forall a b c, leb a b = true -> leb b c = true -> leb a c = true.
+Definition kle (a b : A) : Prop := leb a b = true.
 
-Lemma insert_perm x l : Permutation (insert_by key x l) (x :: l).
+Lemma insert_perm x l : Permutation (insert_by leb x l) (x :: l).
 Proof.
   induction l as [|y l IH]; cbn [insert_by]; [reflexivity|].
-  destruct (String.leb (key x) (key y)); [reflexivity|].
+  destruct (leb x y); [reflexivity|].
   rewrite IH. apply perm_swap.
 Qed.
 
-Lemma sort_perm l : Permutation (sort_by key l) l.
+Lemma sort_perm l : Permutation (sort_by leb l) l.
 Proof.
   unfold sort_by. induction l as [|x l IH]; cbn [fold_right]; [reflexivity|].
   rewrite insert_perm. apply perm_skip. exact IH.
 Qed.
 
-Lemma insert_sorted x l : StronglySorted kle l -> StronglySorted kle (insert_by key x l).
+Lemma insert_sorted x l : StronglySorted kle l -> StronglySorted kle (insert_by leb x l).
 Proof.
   intros H. induction H as [|y l Hl IH Hy]; cbn [insert_by].
   - constructor; constructor.
-  - destruct (String.leb (key x) (key y)) eqn:E.
+  - destruct (leb x y) eqn:E.
     + constructor; [constructor; assumption|]. constructor; [exact E|].
-      rewrite Forall_forall in *. intros z Hz. unfold kle. apply (sleb_trans _ (key y)); [exact E|apply Hy; exact Hz].
+      rewrite Forall_forall in *. intros z Hz. unfold kle. apply (leb_trans _ y); [exact E|apply Hy; exact Hz].
     + constructor; [exact IH|]. rewrite Forall_forall in *. intros z Hz.
       apply (Permutation_in _ (insert_perm x l)) in Hz. destruct Hz as [Hz|Hz].
-      * subst z. unfold kle. destruct (String.leb_total (key x) (key y)) as [T|T]; [congruence|exact T].
+      * subst z. unfold kle. destruct (leb_total x y) as [T|T]; [congruence|exact T].
       * apply Hy. exact Hz.
 Qed.
 
-Lemma sort_sorted l : StronglySorted kle (sort_by key l).
+Lemma sort_sorted l : StronglySorted kle (sort_by leb l).
 Proof.
   unfold sort_by. induction l as [|x l IH]; cbn [fold_right]; [constructor|]. apply insert_sorted. exact IH.
 Qed.
 
 Lemma sorted_unique l1 : forall l2, StronglySorted kle l1 -> StronglySorted kle l2 -> Permutation l1 l2 ->
-  (forall a b, In a l1 -> In b l1 -> key a = key b -> a = b) -> l1 = l2.
+  (forall a b, In a l1 -> In b l1 -> leb a b = true -> leb b a = true -> a = b) -> l1 = l2.
 Proof.
   induction l1 as [|a t1 IH]; intros l2 S1 S2 P Hinj.
   - apply Permutation_nil in P. subst. reflexivity.
@@ -65,15 +67,16 @@ Proof.
     { assert (Ha : In a (b :: t2)) by (apply (Permutation_in _ P); left; reflexivity).
       assert (Hb : In b (a :: t1)) by (apply (Permutation_in _ (Permutation_sym P)); left; reflexivity).
       destruct Ha as [Ha|Ha]; [congruence|]. destruct Hb as [Hb|Hb]; [congruence|].
-      apply Hinj; [left; reflexivity|right; exact Hb|].
-      apply String.leb_antisym; [apply F1; exact Hb|apply F2; exact Ha]. }
+      apply Hinj; [left; reflexivity|right; exact Hb|apply F1; exact Hb|apply F2; exact Ha]. }
     subst b. f_equal. apply IH; try assumption.
     + apply (Permutation_cons_inv P).
     + intros x y Hx Hy. apply Hinj; right; assumption.
 Qed.
 
+(* a stable sort by a total preorder gives the same list for every arrangement of the input, provided the preorder
+   is antisymmetric on the elements present (elements that compare equal are equal) *)
 Theorem sort_by_perm_invariant l l' :
-  Permutation l l' -> (forall a b, In a l -> In b l -> key a = key b -> a = b) -> sort_by key l = sort_by key l'.
+  Permutation l l' -> (forall a b, In a l -> In b l -> leb a b = true -> leb b a = true -> a = b) -> sort_by leb l = sort_by leb l'.
 Proof.
   intros P Hinj. apply sorted_unique; try apply sort_sorted.
   - rewrite (sort_perm l), (sort_perm l'). exact P.
@@ -81,33 +84,86 @@ Proof.
 Qed.
 End Sorting.
 
-(* ---------- the reaction string does not depend on the order inside a role ---------- *)
-Definition key_inj (l : list fmol) : Prop := forall a b, In a l -> In b l -> f_smi a = f_smi b -> a = b.
+(* ---------- the sort key of ReactionContainer.__format__: (SMILES, radical flags) ---------- *)
+Lemma blist_leb_total a : forall b, blist_leb a b = true \/ blist_leb b a = true.
+Proof.
+  induction a as [|x a IH]; intros [|y b]; cbn [blist_leb]; auto.
+  destruct x, y; cbn [Bool.eqb negb]; auto.
+Qed.
 
-Theorem rxn_string_role_order_free_partial no_cx rs rs' gs gs' ps ps' :
-  Permutation rs rs' -> Permutation gs gs' -> Permutation ps ps' -> key_inj rs -> key_inj gs -> key_inj ps ->
+Lemma blist_leb_trans a : forall b c, blist_leb a b = true -> blist_leb b c = true -> blist_leb a c = true.
+Proof.
+  induction a as [|x a IH]; intros [|y b] [|z c]; cbn [blist_leb]; try congruence; try reflexivity.
+  destruct x, y, z; cbn [Bool.eqb negb]; try congruence; try reflexivity; apply IH.
+Qed.
+
+Lemma blist_leb_antisym a : forall b, blist_leb a b = true -> blist_leb b a = true -> a = b.
+Proof.
+  induction a as [|x a IH]; intros [|y b]; cbn [blist_leb]; try congruence; try reflexivity.
+  destruct x, y; cbn [Bool.eqb negb]; try congruence; intros H1 H2; f_equal; apply IH; assumption.
+Qed.
+
+Lemma key_leb_total a b : key_leb a b = true \/ key_leb b a = true.
+Proof.
+  unfold key_leb. rewrite (String.eqb_sym (f_smi b) (f_smi a)). destruct (String.eqb (f_smi a) (f_smi b)).
+  - apply blist_leb_total.
+  - apply String.leb_total.
+Qed.
+
+Lemma key_leb_trans a b c : key_leb a b = true -> key_leb b c = true -> key_leb a c = true.
+Proof.
+  unfold key_leb.
+  destruct (String.eqb_spec (f_smi a) (f_smi b)) as [E1|N1]; destruct (String.eqb_spec (f_smi b) (f_smi c)) as [E2|N2].
+  - rewrite E1, E2, String.eqb_refl. apply blist_leb_trans.
+  - rewrite E1. destruct (String.eqb_spec (f_smi b) (f_smi c)); [congruence|]. intros _ H. exact H.
+  - rewrite <- E2. destruct (String.eqb_spec (f_smi a) (f_smi b)); [congruence|]. intros H _. exact H.
+  - intros H1 H2. pose proof (sleb_trans _ _ _ H1 H2) as H3.
+    destruct (String.eqb_spec (f_smi a) (f_smi c)) as [E3|N3]; [|exact H3].
+    exfalso. rewrite <- E3 in H2. apply N1. apply String.leb_antisym; assumption.
+Qed.
+
+Lemma key_leb_antisym a b : key_leb a b = true -> key_leb b a = true -> f_smi a = f_smi b /\ f_rad a = f_rad b.
+Proof.
+  unfold key_leb. rewrite (String.eqb_sym (f_smi b) (f_smi a)).
+  destruct (String.eqb_spec (f_smi a) (f_smi b)) as [E|N]; intros H1 H2.
+  - split; [exact E|apply blist_leb_antisym; assumption].
+  - exfalso. apply N. apply String.leb_antisym; assumption.
+Qed.
+
+(* ---------- the reaction string does not depend on the order inside a role ---------- *)
+(* molecules with the same SMILES have the same number of components (a fact of the molecule-level writer: one
+   '.'-separated piece per component; implied by fmol_ok below) *)
+Definition ncomp_det (l : list fmol) : Prop := forall a b, In a l -> In b l -> f_smi a = f_smi b -> f_ncomp a = f_ncomp b.
+
+Lemma key_antisym_on l : ncomp_det l -> forall a b, In a l -> In b l -> key_leb a b = true -> key_leb b a = true -> a = b.
+Proof.
+  intros Hd a b Ha Hb H1 H2. destruct (key_leb_antisym a b H1 H2) as [E1 E2]. pose proof (Hd a b Ha Hb E1) as E3.
+  destruct a, b; cbn in *; congruence.
+Qed.
+
+Theorem rxn_string_role_order_free no_cx rs rs' gs gs' ps ps' :
+  Permutation rs rs' -> Permutation gs gs' -> Permutation ps ps' -> ncomp_det rs -> ncomp_det gs -> ncomp_det ps ->
   rxn_format false no_cx rs gs ps = rxn_format false no_cx rs' gs' ps'.
 Proof.
   intros P1 P2 P3 K1 K2 K3. unfold rxn_format, rxn_write.
-  rewrite (sort_by_perm_invariant f_smi rs rs' P1 K1), (sort_by_perm_invariant f_smi gs gs' P2 K2),
-          (sort_by_perm_invariant f_smi ps ps' P3 K3). reflexivity.
+  rewrite (sort_by_perm_invariant key_leb key_leb_total key_leb_trans rs rs' P1 (key_antisym_on rs K1)),
+          (sort_by_perm_invariant key_leb key_leb_total key_leb_trans gs gs' P2 (key_antisym_on gs K2)),
+          (sort_by_perm_invariant key_leb key_leb_total key_leb_trans ps ps' P3 (key_antisym_on ps K3)). reflexivity.
 Qed.
 
-(* the sort key is the SMILES without its CX part: two molecules that differ in radical state only
-   ([Na] and [Na] |^1:0|) have equal keys, the stable sort keeps their input order and the ^1: block differs *)
+(* the radical flags are part of the sort key: [Na] and [Na] |^1:0| in either order give the same string
+   (before the fix of reaction.py the key was the SMILES alone and the two orders gave ^1:0 and ^1:1) *)
 Definition na_plain : fmol := mkF "[Na]" 1 [false].
 Definition na_radical : fmol := mkF "[Na]" 1 [true].
-Theorem rxn_string_role_order_free_refuted :
-  exists rs rs' gs ps, Permutation rs rs' /\ rxn_format false false rs gs ps <> rxn_format false false rs' gs ps.
-Proof.
-  exists [na_radical; na_plain], [na_plain; na_radical], [], [mkF "C" 1 [false]].
-  split; [apply perm_swap|]. vm_compute. discriminate.
-Qed.
+Example rxn_string_radical_tie :
+  rxn_format false false [na_radical; na_plain] [] [mkF "C" 1 [false]] = "[Na].[Na]>>C |^1:1|" /\
+  rxn_format false false [na_plain; na_radical] [] [mkF "C" 1 [false]] = "[Na].[Na]>>C |^1:1|".
+Proof. split; vm_compute; reflexivity. Qed.
 
 (* non-vacuity of the hypothesis and of the conclusion: all 6 orders of three different molecules *)
 Example rxn_string_role_order_free_example :
   let a := mkF "CCO" 1 [false; false; false] in let b := mkF "[Na+].[Cl-]" 2 [false; false] in let c := mkF "[CH3]" 1 [true] in
-  key_inj [a; b; c] /\
+  ncomp_det [a; b; c] /\
   forallb (fun l => String.eqb (rxn_format false false l [] [a]) "CCO.[CH3].[Na+].[Cl-]>>CCO |^1:3,f:2.3|")
           [[a; b; c]; [a; c; b]; [b; a; c]; [b; c; a]; [c; a; b]; [c; b; a]] = true.
 Proof.
@@ -653,35 +709,28 @@ Proof.
   cbn [Z.to_nat skipn]. rewrite firstn_app, Nat.sub_diag, firstn_all. cbn. apply app_nil_r.
 Qed.
 
-Lemma slice_middle {A} (a b c : list A) : c <> [] ->
-  py_slice (a ++ b ++ c) (Some (Z.of_nat (List.length a))) (Some (- Z.of_nat (List.length c))) = b.
+Lemma slice_middle {A} (a b c : list A) :
+  py_slice (a ++ b ++ c) (Some (Z.of_nat (List.length a))) (Some (Z.of_nat (List.length a) + Z.of_nat (List.length b))) = b.
 Proof.
-  intros Hc. assert (0 < List.length c)%nat by (destruct c; [congruence|cbn; lia]).
   unfold py_slice. rewrite !app_length.
   replace (Z.of_nat (List.length a) <? 0) with false by (symmetry; apply Z.ltb_ge; lia).
-  replace (- Z.of_nat (List.length c) <? 0) with true by (symmetry; apply Z.ltb_lt; lia).
+  replace (Z.of_nat (List.length a) + Z.of_nat (List.length b) <? 0) with false by (symmetry; apply Z.ltb_ge; lia).
   replace (Z.to_nat (Z.max 0 (Z.min (Z.of_nat (List.length a + (List.length b + List.length c))) (Z.of_nat (List.length a)))))
     with (List.length a) by lia.
   replace (Z.to_nat (Z.max 0 (Z.min (Z.of_nat (List.length a + (List.length b + List.length c)))
-             (- Z.of_nat (List.length c) + Z.of_nat (List.length a + (List.length b + List.length c)))) -
+             (Z.of_nat (List.length a) + Z.of_nat (List.length b))) -
            Z.max 0 (Z.min (Z.of_nat (List.length a + (List.length b + List.length c))) (Z.of_nat (List.length a)))))
     with (List.length b) by lia.
   rewrite skipn_app, skipn_all, Nat.sub_diag. cbn [app skipn]. rewrite firstn_app, Nat.sub_diag, firstn_all. cbn. apply app_nil_r.
 Qed.
 
-Lemma slice_last {A} (ab c : list A) : c <> [] -> py_slice (ab ++ c) (Some (- Z.of_nat (List.length c))) None = c.
+Lemma slice_last {A} (ab c : list A) : py_slice (ab ++ c) (Some (Z.of_nat (List.length ab))) None = c.
 Proof.
-  intros Hc. assert (0 < List.length c)%nat by (destruct c; [congruence|cbn; lia]).
   unfold py_slice. rewrite !app_length.
-  replace (- Z.of_nat (List.length c) <? 0) with true by (symmetry; apply Z.ltb_lt; lia).
-  replace (Z.to_nat (Z.max 0 (Z.min (Z.of_nat (List.length ab + List.length c))
-            (- Z.of_nat (List.length c) + Z.of_nat (List.length ab + List.length c))))) with (List.length ab) by lia.
+  replace (Z.of_nat (List.length ab) <? 0) with false by (symmetry; apply Z.ltb_ge; lia).
+  replace (Z.to_nat (Z.max 0 (Z.min (Z.of_nat (List.length ab + List.length c)) (Z.of_nat (List.length ab))))) with (List.length ab) by lia.
   rewrite skipn_app, skipn_all, Nat.sub_diag. cbn [app skipn]. apply firstn_all2. lia.
 Qed.
-
-(* the flaw: with an empty product side the slices [-0:] and [lr:-0] are the whole list and the empty list *)
-Lemma slice_last_empty {A} (l : list A) : py_slice l (Some (- 0)) None = l.
-Proof. unfold py_slice. cbn. replace (Z.max 0 (Z.min (Z.of_nat (List.length l)) 0)) with 0 by lia. cbn. apply firstn_all2. lia. Qed.
 
 (* ---------- the contraction restores the molecules ---------- *)
 Lemma py_get_pos l i : 0 <= i < Z.of_nat (List.length l) -> py_get l i = nth (Z.to_nat i) l EmptyString.
@@ -728,12 +777,12 @@ Lemma get_ok_P rec_r rec_p rec_g N lr : get_ok rec_r rec_p rec_g N lr RP (N - Z.
 Proof. intros x Hx. unfold getf. rewrite py_get_neg by lia. f_equal. lia. Qed.
 
 Theorem contract_roles_restores R G P :
-  Forall fmol_ok R -> Forall fmol_ok G -> Forall fmol_ok P -> P <> [] ->
+  Forall fmol_ok R -> Forall fmol_ok G -> Forall fmol_ok P ->
   contract_roles (flat R) (flat P) (flat G)
     (multi_ranges 0 R ++ multi_ranges (total R) G ++ multi_ranges (total R + total G) P) =
   Ok (map f_smi R, map f_smi G, map f_smi P).
 Proof.
-  intros HR HG HP HPn. unfold contract_roles.
+  intros HR HG HP. unfold contract_roles.
   fold (total R). fold (total P). fold (total G).
   set (lr := total R). set (lg := total G). set (lp := total P). set (N := lr + lp + lg).
   pose proof (total_nonneg R). pose proof (total_nonneg G). pose proof (total_nonneg P).
@@ -798,10 +847,14 @@ Proof.
     - apply heads_nodup. }
   rewrite Efinal.
   assert (Lr : lr = Z.of_nat (List.length (expect R))) by (rewrite expect_length; reflexivity).
-  assert (Lp : lp = Z.of_nat (List.length (expect P))) by (rewrite expect_length; reflexivity).
-  rewrite Lr at 1. rewrite slice_first. rewrite Lr, Lp at 1. rewrite slice_middle by (apply expect_nonnil; exact HPn).
-  rewrite Lp. rewrite app_assoc. rewrite slice_last by (apply expect_nonnil; exact HPn).
-  rewrite !somes_expect. reflexivity.
+  assert (Lg : lg = Z.of_nat (List.length (expect G))) by (rewrite expect_length; reflexivity).
+  rewrite Lr at 1. rewrite slice_first.
+  assert (S2 : py_slice (expect R ++ expect G ++ expect P) (Some lr) (Some (lr + lg)) = expect G)
+    by (rewrite Lr, Lg; apply slice_middle).
+  assert (S3 : py_slice (expect R ++ expect G ++ expect P) (Some (lr + lg)) None = expect P).
+  { rewrite app_assoc. replace (lr + lg) with (Z.of_nat (List.length (expect R ++ expect G))) by (rewrite app_length; lia).
+    apply slice_last. }
+  rewrite S2, S3, !somes_expect. reflexivity.
 Qed.
 
 (* ---------- writer then reader ---------- *)
@@ -817,12 +870,11 @@ Qed.
 
 Theorem read_core_roundtrip ignore R G P :
   Forall fmol_ok R -> Forall fmol_ok G -> Forall fmol_ok P ->
-  P <> [] \/ w_contract (rxn_write true R G P) = [] ->
   read_core ignore (w_sig (rxn_write true R G P))
             (match w_contract (rxn_write true R G P) with [] => None | c => Some c end) =
   Ok (Some (map f_smi R, map f_smi G, map f_smi P)).
 Proof.
-  intros HR HG HP Hc. rewrite (rxn_write_keep R G P HR HG HP) in *. cbn [w_sig w_contract] in *.
+  intros HR HG HP. rewrite (rxn_write_keep R G P HR HG HP) in *. cbn [w_sig w_contract] in *.
   set (A := concat (sep dot) (map f_smi R)). set (B := concat (sep dot) (map f_smi G)). set (C := concat (sep dot) (map f_smi P)).
   assert (HA : contains gt A = false) by (apply role_sig_no_gt; exact HR).
   assert (HB : contains gt B = false) by (apply role_sig_no_gt; exact HG).
@@ -836,46 +888,49 @@ Proof.
   destruct (multi_ranges 0 R ++ multi_ranges (total R) G ++ multi_ranges (total R + total G) P) as [|c cs] eqn:Em.
   - apply app_eq_nil in Em. destruct Em as [E1 Em]. apply app_eq_nil in Em. destruct Em as [E2 E3].
     rewrite (multi_none_flat R _ E1), (multi_none_flat G _ E2), (multi_none_flat P _ E3). reflexivity.
-  - destruct Hc as [Hc|Hc]; [|discriminate]. rewrite <- Em. rewrite (contract_roles_restores R G P HR HG HP Hc). reflexivity.
+  - rewrite <- Em. rewrite (contract_roles_restores R G P HR HG HP). reflexivity.
 Qed.
 
 Lemma Forall_perm {A} (Q : A -> Prop) l l' : Permutation l l' -> Forall Q l -> Forall Q l'.
 Proof. intros P H. rewrite Forall_forall in *. intros x Hx. apply H. apply (Permutation_in _ (Permutation_sym P)). exact Hx. Qed.
 
-Definition prep (keep_order : bool) (l : list fmol) : list fmol := if keep_order then l else sort_by f_smi l.
+Definition prep (keep_order : bool) (l : list fmol) : list fmol := if keep_order then l else sort_by key_leb l.
 
 (* splitting what __format__ wrote ('>' and '.' splitting, f: contraction) hands exactly the molecule strings, role
-   by role and in the written order, to the molecule parser -- provided the product side is not empty or no
-   molecule has several components *)
-Theorem rxn_split_roundtrip_partial ignore keep_order rs gs ps :
+   by role and in the written order, to the molecule parser -- for every reaction, empty roles included *)
+Theorem rxn_split_roundtrip ignore keep_order rs gs ps :
   Forall fmol_ok rs -> Forall fmol_ok gs -> Forall fmol_ok ps ->
-  ps <> [] \/ w_contract (rxn_write keep_order rs gs ps) = [] ->
   read_core ignore (w_sig (rxn_write keep_order rs gs ps))
             (match w_contract (rxn_write keep_order rs gs ps) with [] => None | c => Some c end) =
   Ok (Some (map f_smi (prep keep_order rs), map f_smi (prep keep_order gs), map f_smi (prep keep_order ps))).
 Proof.
-  intros HR HG HP Hc.
+  intros HR HG HP.
   assert (E : rxn_write keep_order rs gs ps = rxn_write true (prep keep_order rs) (prep keep_order gs) (prep keep_order ps)).
   { destruct keep_order; reflexivity. }
   rewrite E in *. apply read_core_roundtrip.
-  - destruct keep_order; [exact HR|]. apply (Forall_perm _ _ _ (Permutation_sym (sort_perm f_smi rs)) HR).
-  - destruct keep_order; [exact HG|]. apply (Forall_perm _ _ _ (Permutation_sym (sort_perm f_smi gs)) HG).
-  - destruct keep_order; [exact HP|]. apply (Forall_perm _ _ _ (Permutation_sym (sort_perm f_smi ps)) HP).
-  - destruct Hc as [Hc|Hc]; [left|right; exact Hc]. destruct keep_order; [exact Hc|]. cbn [prep].
-    intros En. apply Hc. pose proof (sort_perm f_smi ps) as Pp. rewrite En in Pp. apply Permutation_nil in Pp. exact Pp.
+  - destruct keep_order; [exact HR|]. apply (Forall_perm _ _ _ (Permutation_sym (sort_perm key_leb rs)) HR).
+  - destruct keep_order; [exact HG|]. apply (Forall_perm _ _ _ (Permutation_sym (sort_perm key_leb gs)) HG).
+  - destruct keep_order; [exact HP|]. apply (Forall_perm _ _ _ (Permutation_sym (sort_perm key_leb ps)) HP).
 Qed.
 
-(* the statement without the side condition is false: new_molecules[-lp:] with lp = 0 is the whole list, so a salt on
-   the reactant side of a reaction without products is also returned as a product (and reagents are dropped) *)
-Definition nacl : fmol := mkF "[Na+].[Cl-]" 2 [false; false].
-Theorem rxn_split_roundtrip_refuted :
-  exists rs gs ps, Forall fmol_ok rs /\ Forall fmol_ok gs /\ Forall fmol_ok ps /\
-    read_core true (w_sig (rxn_write false rs gs ps))
-              (match w_contract (rxn_write false rs gs ps) with [] => None | c => Some c end) =
-    Ok (Some (["[Na+].[Cl-]"], [], ["[Na+].[Cl-]"])) /\
-    map f_smi (prep false ps) = [].
+(* fmol_ok implies the hypothesis of the order-freeness theorem *)
+Lemma fmol_ok_ncomp_det l : Forall fmol_ok l -> ncomp_det l.
 Proof.
-  exists [nacl], [], []. split; [|split; [constructor|split; [constructor|split; [vm_compute; reflexivity|reflexivity]]]].
+  intros H a b Ha Hb E. rewrite Forall_forall in H. destruct (H a Ha) as [Ea _]. destruct (H b Hb) as [Eb _].
+  rewrite Ea, Eb. unfold len, pcs. rewrite E. reflexivity.
+Qed.
+
+(* the case that was wrong before the fix of smiles.py (new_molecules[-lp:] with lp = 0): a salt on the reactant side
+   (or among the reagents) of a reaction without products *)
+Definition nacl : fmol := mkF "[Na+].[Cl-]" 2 [false; false].
+Example rxn_split_roundtrip_no_products :
+  Forall fmol_ok [nacl] /\
+  read_core true (w_sig (rxn_write false [nacl] [] [])) (Some (w_contract (rxn_write false [nacl] [] []))) =
+    Ok (Some (["[Na+].[Cl-]"], [], [])) /\
+  read_core true (w_sig (rxn_write false [] [nacl] [])) (Some (w_contract (rxn_write false [] [nacl] []))) =
+    Ok (Some ([], ["[Na+].[Cl-]"], [])).
+Proof.
+  split; [|split; vm_compute; reflexivity].
   constructor; [|constructor]. split; [reflexivity|]. vm_compute. repeat constructor; discriminate.
 Qed.
 
